@@ -150,6 +150,8 @@ class Facts:
         self.normalised = []
         self._loopforms = {}
         self._nestforms = {}
+        from .forward import lower_forwarders
+        self.forwarded = lower_forwarders(self)
         if normalise:
             from .inline import normalise as _normalise
             _normalise(self, known_fns())
